@@ -122,16 +122,36 @@ theorem defaultTree_get_set : ∀ (p : Path) (h : Heap) (v : Ref) (h' : Heap) (t
 
 /-! ## get after set -/
 
+/-- The reference-valued read `get h t p` never has to index **into** an ndarray: no object met with keys
+still to go is an ndarray.  (Indexing into an ndarray creates a new object; such reads are `getV`, and
+the get/set law for them is by value: `C18_nd_get_set`.) -/
+def NoNd (h : Heap) : Ref → Path → Prop
+  | _, [] => True
+  | _, .self :: _ => True
+  | t, k :: rest => (∀ b o s, h[t]? ≠ some (.nd b o s)) ∧ ∀ c, index h t k = .ok c → NoNd h c rest
+
+theorem NoNd_cons {h : Heap} {t : Ref} {k : PKey} {rest : Path} (hk : k ≠ .self) :
+    NoNd h t (k :: rest) ↔ ((∀ b o s, h[t]? ≠ some (.nd b o s)) ∧ ∀ c, index h t k = .ok c → NoNd h c rest) := by
+  cases k <;> simp_all [NoNd]
+
+theorem Node.slotPut_not_nd {n n' : Node} {k : PKey} {c : Ref} (hp : n.slotPut k c = some n') :
+    ∀ b o s, n ≠ .nd b o s := by
+  intro b o s e; subst e; simp [Node.slotPut] at hp
+
+theorem Node.slotGet_not_nd {n : Node} {k : PKey} {c : Ref} (hg : n.slotGet k = .ok c) :
+    ∀ b o s, n ≠ .nd b o s := by
+  intro b o s e; subst e; simp [Node.slotGet] at hg
+
 theorem setPath_get_set (strict : Bool) : ∀ (p : Path) (h : Heap) (t v : Ref) (h' : Heap) (t' : Ref),
     PlainSelf p → setPath strict false h t p v = (h', .ok t') →
-    ∀ h'' : Heap, (∀ r, h.size ≤ r → r < h'.size → h''[r]? = h'[r]?) → get h'' t' p = .ok v := by
+    ∀ h'' : Heap, (∀ r, h.size ≤ r → r < h'.size → h''[r]? = h'[r]?) → NoNd h'' t' p → get h'' t' p = .ok v := by
   intro p
   induction p with
   | nil =>
-    intro h t v h' t' _ hs h'' _
+    intro h t v h' t' _ hs h'' _ _
     simp [setPath] at hs; obtain ⟨_, rfl⟩ := hs; simp
   | cons k rest ih =>
-    intro h t v h' t' hp hs h'' hag
+    intro h t v h' t' hp hs h'' hag hnd
     by_cases hself : k = .self
     · subst hself
       simp [setPath] at hs; obtain ⟨_, rfl⟩ := hs; simp
@@ -149,16 +169,25 @@ theorem setPath_get_set (strict : Bool) : ∀ (p : Path) (h : Heap) (t v : Ref) 
         split at hs
         · simp at hs
         · exact defaultTree_get_set _ h v h' t' hp hs h'' hag
-      · obtain ⟨hm, child, hc, c, n', hext, hlt, _, hrec, hput, hcell, htq, hmc, hch', hsame⟩ :=
-          setPath_step hk1 hk2 hn hnull hs
-        have hrest : get h'' c rest = .ok v := by
-          apply ih hm child v hc c hk.2 hrec h''
-          intro r hr1 hr2
-          rw [hag r (by omega) (by omega), hsame r hr2 (by omega)]
+      · have hnd := (NoNd_cons hk1).mp hnd
+        have hndn : ∀ b o s, n ≠ .nd b o s := by
+          intro b o s e
+          subst e
+          obtain ⟨ht', hlt', hcell'⟩ := setPath_nd_result hk1 hk2 hn hs
+          apply hnd.1 h.size 0 s
+          rw [hag t' (by omega) (by omega), hcell']
+        obtain ⟨hm, child, hc, c, n', hext, hlt, _, hrec, hput, hcell, htq, hmc, hch', hsame⟩ :=
+          setPath_step hk1 hk2 hn hnull hndn hs
         have ht' : t' < h'.size := lt_size_of_get hcell
         have hcell'' : h''[t']? = some n' := by
           have : h.size ≤ t' := by rcases htq with e | e <;> rw [e] <;> omega
           rw [hag t' this ht']; exact hcell
+        have hrest : get h'' c rest = .ok v := by
+          apply ih hm child v hc c hk.2 hrec h''
+          · intro r hr1 hr2
+            rw [hag r (by omega) (by omega), hsame r hr2 (by omega)]
+          · apply hnd.2 c
+            rw [index_of_get hcell'', Node.slotGet_slotPut_same hput]
         rw [get_cons _ (Or.inl hk.1), index_of_get hcell'', Node.slotGet_slotPut_same hput]
         exact hrest
 
@@ -168,6 +197,8 @@ namespace MlModel.Tree
 
 /-! ## regions: sets of cells closed under following references -/
 
+/-- The *object references* stored in a cell (the children of a container).  An ndarray is a leaf of the
+tree: its buffer is not a child object (it is named by `ndBuf`; that it exists is the invariant `NdOK`). -/
 def Node.refs : Node → List Ref
   | .dict es => es.map (·.2)
   | .list rs => rs
@@ -220,6 +251,8 @@ theorem Node.slotGet_mem {n : Node} {k : PKey} {c : Ref} (hg : n.slotGet k = .ok
   | tuple rs => exact seqGet_mem hg
   | leaf v => simp [Node.slotGet] at hg
   | null => simp [Node.slotGet] at hg
+  | nd _ _ _ => simp [Node.slotGet] at hg
+  | buf _ => simp [Node.slotGet] at hg
 
 /-- Reading from a cell of a region only looks at the region. -/
 theorem getCore_agree {A : Ref → Prop} {h h'' : Heap} (hA : Region A h) (hag : ∀ r, A r → h''[r]? = h[r]?) :
@@ -335,8 +368,15 @@ theorem setPath_frame (strict : Bool) {p q : Path} (d : Diverge p q) :
         have h2 : get h t (k' :: q) ≠ .ok x := by
           rw [get_cons _ hk', index_of_get hn]; simp [Node.slotGet]
         exact ⟨fun e => absurd e h1, fun e => absurd e h2⟩
-    · obtain ⟨hm, child, hc, c, n', hext, hlt, _, hrec, hput, hcell, htq, hmc, hch', hsame⟩ :=
-        setPath_step hk1 hk2 hn hnull hs
+    · by_cases hisnd : ∃ b o s, n = .nd b o s
+      · obtain ⟨b, o, s, rfl⟩ := hisnd
+        obtain ⟨ht', hlt', hcell'⟩ := setPath_nd_result hk1 hk2 hn hs
+        have hcell'' : h''[t']? = some (.nd h.size 0 s) := by rw [hagF t' (by omega) (by omega), hcell']
+        rw [get_cons _ hk', get_cons _ hk', index_of_get hcell'', index_of_get hn]
+        simp [Node.slotGet]
+      have hndn : ∀ b o s, n ≠ .nd b o s := fun b o s e => hisnd ⟨b, o, s, e⟩
+      obtain ⟨hm, child, hc, c, n', hext, hlt, _, hrec, hput, hcell, htq, hmc, hch', hsame⟩ :=
+        setPath_step hk1 hk2 hn hnull hndn hs
       have ht' : t' < h'.size := lt_size_of_get hcell
       have hcell'' : h''[t']? = some n' := by
         have : h.size ≤ t' := by rcases htq with e | e <;> rw [e] <;> omega
@@ -364,8 +404,15 @@ theorem setPath_frame (strict : Bool) {p q : Path} (d : Diverge p q) :
         have h2 : get h t (k' :: q) ≠ .ok x := by
           rw [get_cons _ (Or.inl hk'), index_of_get hn]; simp [Node.slotGet]
         exact ⟨fun e => absurd e h1, fun e => absurd e h2⟩
-    · obtain ⟨hm, child, hc, c, n', hext, hlt, hslot, hrec, hput, hcell, htq, hmc, hch', hsame⟩ :=
-        setPath_step hk1 hk2 hn hnull hs
+    · by_cases hisnd : ∃ b o s, n = .nd b o s
+      · obtain ⟨b, o, s, rfl⟩ := hisnd
+        obtain ⟨ht', hlt', hcell'⟩ := setPath_nd_result hk1 hk2 hn hs
+        have hcell'' : h''[t']? = some (.nd h.size 0 s) := by rw [hagF t' (by omega) (by omega), hcell']
+        rw [get_cons _ (Or.inl hk'), get_cons _ (Or.inl hk'), index_of_get hcell'', index_of_get hn]
+        simp [Node.slotGet]
+      have hndn : ∀ b o s, n ≠ .nd b o s := fun b o s e => hisnd ⟨b, o, s, e⟩
+      obtain ⟨hm, child, hc, c, n', hext, hlt, hslot, hrec, hput, hcell, htq, hmc, hch', hsame⟩ :=
+        setPath_step hk1 hk2 hn hnull hndn hs
       have ht' : t' < h'.size := lt_size_of_get hcell
       have hcell'' : h''[t']? = some n' := by
         have : h.size ≤ t' := by rcases htq with e | e <;> rw [e] <;> omega
